@@ -186,7 +186,44 @@ class EBoth(EFR):
         return self._run(flow)
 
 
-KINDS = {"fc": EFC, "fr": EFR, "run": ERun, "both": EBoth}
+class ECustom(Content):
+    """fill/request element whose methods have other names; the usual names are data attributes."""
+    run = "2023A"
+    fill = 5
+    request = 0
+    compute = 7
+    reset = "x"
+
+    def put(self, v):
+        self._fill(v)
+
+    def take_results(self):
+        return self._results()
+
+    def wipe(self):
+        self._reset()
+
+
+# values and results that look like "nothing"
+NOTHINGS = [None, 0, "", {}, [], False, (0, {}), 0.0, ()]
+
+
+def nothing(i):
+    return NOTHINGS[i % len(NOTHINGS)]
+
+
+class EFalsyResults(EFR):
+    """fill/request element whose results are falsy objects (chosen by result number and content size)."""
+
+    def _gen(self):
+        size = len(self.content)
+        self.req_sizes.append(self._since)
+        self._since = 0
+        for i in range(1, self.m + 1):
+            yield nothing(i + size + 7)     # a block of one value gives None, then 0, "", ...
+
+
+KINDS = {"fc": EFC, "fr": EFR, "run": ERun, "both": EBoth, "frc": ECustom}
 
 
 def norm(v):
@@ -214,9 +251,60 @@ def build_fr(cfg, el=None, aslist=False, neither=False):
     if el is None:
         el = KINDS[cfg["kind"]](cfg["m"], cfg.get("pv", False), aslist, cfg.get("take", 0))
     kw = dict(bufsize=cfg["n"], reset=cfg["reset"], yield_on_remainder=cfg["yor"])
+    if isinstance(el, ECustom):
+        kw.update(fill="put", request="take_results", reset_name="wipe")
     if not (neither and cfg["yor"] and not cfg["bufIn"]):
         kw["buffer_input" if cfg["bufIn"] else "buffer_output"] = True
     return lena.core.FillRequest(el, **kw), el
+
+
+class Collector(object):
+    """ctx.case bookkeeping inside a worker process; merged into the Ctx afterwards."""
+
+    def __init__(self):
+        self.evaluations = 0
+        self.traces = 0
+        self.distinct = set()
+
+    def case(self, scenario, nontrivial=True, traces=1):
+        import hashlib
+        from . import core
+        self.evaluations += 1
+        self.traces += traces
+        if nontrivial:
+            self.distinct.add(hashlib.md5(core.canon(scenario).encode()).hexdigest())
+
+    def counts(self):
+        return (self.evaluations, self.traces, self.distinct)
+
+
+def merge_counts(ctx, counts):
+    ctx.evaluations += counts[0]
+    ctx.traces += counts[1]
+    ctx.distinct |= counts[2]
+
+
+def nprocs(thorough):
+    import os
+    n = os.environ.get("VERIF_PROCS")
+    if n:
+        return max(1, int(n))
+    return max(1, min(8 if thorough else 4, (os.cpu_count() or 2) // 2))
+
+
+def parallel_map(fn, items, nproc):
+    """fn(list of items) -> result, over nproc forked workers (items dealt round-robin); list of results."""
+    if nproc <= 1 or len(items) < 200:
+        return [fn(items)]
+    import multiprocessing
+    mp = multiprocessing.get_context("fork")
+    chunks = [items[i::nproc] for i in range(nproc)]
+    pool = mp.Pool(nproc)
+    try:
+        return pool.map(fn, chunks)
+    finally:
+        pool.close()
+        pool.join()
 
 
 def sched_str(h):
@@ -313,10 +401,36 @@ def _has_key(k):
     return has_key
 
 
-def build_stage2(st, fk):
-    """Real element for a stage of the extended vocabulary (context-dependent selectors), else flowlib's."""
+ALL_ATTRS = ("run", "fill", "compute", "request", "fill_into", "reset", "call")
+
+
+class DupInc(object):
+    """Run element yielding every value and then that value + 1."""
+
+    def run(self, flow):
+        from . import flowlib
+        inc = flowlib._map_callable("inc")
+        for v in flow:
+            yield v
+            yield inc(v)
+
+
+def build_stage2(st, fk, variant=0):
+    """Real element for a stage of the extended vocabulary (context-dependent selectors), else flowlib's.
+
+    variant chooses between equivalent spellings (Slice(stop), Slice(start, stop), Slice(start, stop, step))."""
     import lena.flow
     from . import flowlib
+    if st["t"] == "runifdup":
+        return lena.flow.RunIf(st["k"], DupInc())
+    if st["t"] == "map" and st.get("attr") == "all":
+        import lena.variables
+        return lena.variables.Variable("x", lambda d: d + 10, **dict((a, "2023A") for a in ALL_ATTRS))
+    if st["t"] == "slice" and st["s"] == 1 and variant % 3:
+        stop = None if st["b"] == NONE else st["b"]
+        if variant % 3 == 1 and st["a"] == 0 and stop is not None:
+            return lena.flow.Slice(stop)
+        return lena.flow.Slice(st["a"], stop)
     if st["t"] == "map" and st.get("attr"):
         # a Variable exposes its keyword attributes as (data) attributes: Variable(..., run="2023A").run == "2023A"
         import lena.variables
@@ -329,10 +443,10 @@ def build_stage2(st, fk):
     return flowlib.build_stage(st, fk != "bare")
 
 
-def build_chain(ch, fk, acc=None):
+def build_chain(ch, fk, acc=None, variant=0):
     """Fresh real elements (pre, acc, post) for a chain descriptor."""
-    pre = [build_stage2(st, fk) for st in ch["pre"]]
-    post = [build_stage2(st, fk) for st in ch["post"]]
+    pre = [build_stage2(st, fk, variant) for st in ch["pre"]]
+    post = [build_stage2(st, fk, variant) for st in ch["post"]]
     return pre, (acc if acc is not None else build_acc(ch["acc"])), post
 
 
@@ -365,14 +479,36 @@ def siblings(variant=0):
     return a, b
 
 
-def drive_chain(ch, n_values, fk, drv, bs=None, acc=None, copy_buf=True, form="tuple", place="alone"):
+STATELESS = ("map", "filter", "slice", "runif", "cfilter", "crunif", "runifdup")
+
+
+class SecondComputeDiffers(Exception):
+    pass
+
+
+def drive_chain(ch, n_values, fk, drv, bs=None, acc=None, copy_buf=True, form="tuple", place="alone", variant=0,
+                values=None):
     """Run one driver on fresh elements; returns the list of real results of the chain (exceptions propagate).
 
     place != "alone": the chain is a branch of a Split next to sibling branches; their results are removed."""
     import lena.core
-    pre, a, post = build_chain(ch, fk, acc)
+    pre, a, post = build_chain(ch, fk, acc, variant)
     els = pre + [a] + post
-    flow = iter([make_value(i, fk) for i in range(n_values)])
+    flow = iter([make_value(i, fk) if values is None else values(i) for i in range(n_values)])
+    if drv == "persist":
+        # the same FillComputeSeq is filled with every value although it raised LenaStopFill; computed twice
+        s = lena.core.FillComputeSeq(*els)
+        for v in flow:
+            try:
+                s.fill(v)
+            except lena.core.LenaStopFill:
+                pass
+        first = list(s.compute())
+        if all(st["t"] in STATELESS for st in ch["post"]):
+            second = list(s.compute())
+            if repr(second) != repr(first):
+                raise SecondComputeDiffers(repr((first, second)))
+        return first
     if drv == "run":
         return list(lena.core.Sequence(*els).run(flow))
     if drv == "split":
@@ -380,6 +516,8 @@ def drive_chain(ch, n_values, fk, drv, bs=None, acc=None, copy_buf=True, form="t
             branch = tuple(els)
         elif form == "fcseq":
             branch = lena.core.FillComputeSeq(*els)
+        elif form == "bare" and not pre and not post:
+            branch = a             # a fill/compute element itself is a branch
         else:
             raise ValueError(form)
         if place == "alone":
@@ -423,6 +561,8 @@ def chain_key(ch):
             return "slice(%s,%s,%s)" % (st["a"], "None" if st["b"] == NONE else st["b"], st["s"])
         if t == "runif":
             return "runif(%s,%s)" % (st["p"], st["f"])
+        if t == "runifdup":
+            return "runif-ctx(%s,dup)" % st["k"]
         if t == "cfilter":
             return "filter-ctx-%s-%s" % (st["k"], st["form"])
         if t == "crunif":
